@@ -575,9 +575,9 @@ status_t WebSocketMessageIOGateway :: CreateReplyFrame(const uint8 * data, uint3
    {
       // Clients must always mask the payloads they send to the server
       const uint32 mask = GetInsecurePseudoRandomNumber32();
-      flat.WriteInt32(mask);
-
       const uint8 * mask8 = reinterpret_cast<const uint8 *>(&mask);
+      flat.WriteBytes(mask8, sizeof(mask));  // the masking-key must be sent in the same byte-order that we apply it in, below
+
       MRETURN_ON_ERROR(_scratchMaskBuf.SetNumBytes(numBytes, false));
       uint8 * payloadBytes = _scratchMaskBuf.GetBuffer();
       for (uint32 i=0; i<numBytes; i++) payloadBytes[i] = data[i] ^ mask8[i%sizeof(mask)];
